@@ -80,7 +80,7 @@ func c19r1(w *World, rr *RuleRun) {
 		// the guards are evaluated under the lock, in the same call
 		fn := enclosingNamed(site.Parent())
 		for _, obj := range []*types.Func{isSet, lookup} {
-			cs := w.CallsIn(fn, obj, true)
+			cs := w.CallsInRegion(fn, obj)
 			if len(cs) == 0 {
 				rr.At(w, site, obj.Name()+" evaluated in the send routine", false, "no call of "+obj.Name()+" in "+shortFuncName(fn))
 			}
